@@ -29,7 +29,9 @@
 #include "c12_common.hh"
 #include <libTMCG.hh>
 #include "c12_pgp_ext.hh"
+#include <memory>
 #include "c12_pgp_seeds.hh"
+#include "c12_pgp_revseeds.hh"
 
 using namespace drv;
 using namespace c12;
@@ -191,6 +193,65 @@ static int gen_seeds()
 	emit_seed("SEED_LIT", lit);
 	printf("static const char *SEED_DATA = \"%s\";\n", data.c_str());
 	printf("#define C12_HAVE_PGP_SEEDS 1\n");
+	return 0;
+}
+
+
+// building blocks for the designated-revoker graphs (family key, target revoker-graph): three DSA keys K0..K2; per key the
+// public key packet and a user ID with its certification; per ordered pair (x, y), x = y included, a direct-key signature
+// of Kx that names Ky as designated revoker and a key revocation signature over Kx issued by Ky.  Frozen in
+// c12_pgp_revseeds.hh (`c12_pgp --gen-revseeds`) for the same reason as the other seeds.
+static int gen_revseeds()
+{
+	gcry_sexp_t parms, key[3];
+	size_t erroff;
+	CHK(gcry_sexp_build(&parms, &erroff, "(genkey (dsa (nbits 4:2048)(qbits 3:256)))"));
+	for (int k = 0; k < 3; k++) CHK(gcry_pk_genkey(&key[k], parms));
+	gcry_sexp_release(parms);
+	time_t creation = 1699990000, sigtime = creation + 10;
+	tmcg_openpgp_octets_t pub[3], hashing[3], fpr[3], empty, flags;
+	flags.push_back(0x01 | 0x02);
+	printf("// generated by `c12_pgp --gen-revseeds` (library encoders on libgcrypt-generated keys); do not edit\n");
+	auto sign = [&](int k, const tmcg_openpgp_octets_t &trailer, const tmcg_openpgp_octets_t &hash, const tmcg_openpgp_octets_t &left, tmcg_openpgp_octets_t &out) {
+		gcry_mpi_t r = gcry_mpi_new(2048), s = gcry_mpi_new(2048);
+		CHK(PGP::AsymmetricSignDSA(hash, key[k], r, s));
+		PGP::PacketSigEncode(trailer, left, r, s, out);
+		gcry_mpi_release(r), gcry_mpi_release(s);
+	};
+	for (int k = 0; k < 3; k++)
+	{
+		gcry_mpi_t p, q, g, y;
+		CHK(gcry_sexp_extract_param(key[k], NULL, "pqgy", &p, &q, &g, &y, NULL));
+		PGP::PacketPubEncode(creation, TMCG_OPENPGP_PKALGO_DSA, p, q, g, y, pub[k]);
+		PGP::PacketBodyExtract(pub[k], 0, hashing[k]);
+		PGP::FingerprintCompute(hashing[k], fpr[k]);
+		gcry_mpi_release(p), gcry_mpi_release(q), gcry_mpi_release(g), gcry_mpi_release(y);
+		tmcg_openpgp_octets_t uid, trailer, hash, left, uidsig, both;
+		std::string name = std::string("Key ") + (char)('A' + k) + " <k" + (char)('a' + k) + "@example.org>";
+		PGP::PacketUidEncode(name, uid);
+		PGP::PacketSigPrepareSelfSignature(TMCG_OPENPGP_SIGNATURE_POSITIVE_CERTIFICATION, TMCG_OPENPGP_HASHALGO_SHA256, sigtime, 0, flags, fpr[k], trailer);
+		PGP::CertificationHash(hashing[k], name, empty, trailer, TMCG_OPENPGP_HASHALGO_SHA256, hash, left);
+		sign(k, trailer, hash, left, uidsig);
+		both = uid, both.insert(both.end(), uidsig.begin(), uidsig.end());
+		emit_seed((std::string("REVSEED_PUB") + (char)('0' + k)).c_str(), pub[k]);
+		emit_seed((std::string("REVSEED_UID") + (char)('0' + k)).c_str(), both);
+	}
+	for (int x = 0; x < 3; x++)
+		for (int y = 0; y < 3; y++)
+		{
+			tmcg_openpgp_octets_t trailer, hash, left, dirsig, revsig;
+			PGP::PacketSigPrepareDesignatedRevoker(TMCG_OPENPGP_HASHALGO_SHA256, sigtime, flags, fpr[x], TMCG_OPENPGP_PKALGO_DSA, fpr[y], trailer);
+			PGP::KeyHash(hashing[x], trailer, TMCG_OPENPGP_HASHALGO_SHA256, hash, left);
+			sign(x, trailer, hash, left, dirsig);
+			trailer.clear(), hash.clear(), left.clear();
+			PGP::PacketSigPrepareRevocationSignature(TMCG_OPENPGP_SIGNATURE_KEY_REVOCATION, TMCG_OPENPGP_HASHALGO_SHA256, sigtime + 5,
+				TMCG_OPENPGP_REVCODE_KEY_COMPROMISED, "", fpr[y], trailer);
+			PGP::KeyHash(hashing[x], trailer, TMCG_OPENPGP_HASHALGO_SHA256, hash, left);
+			sign(y, trailer, hash, left, revsig);
+			emit_seed((std::string("REVSEED_DIR") + (char)('0' + x) + (char)('0' + y)).c_str(), dirsig);
+			emit_seed((std::string("REVSEED_REV") + (char)('0' + x) + (char)('0' + y)).c_str(), revsig);
+		}
+	printf("#define C12_HAVE_PGP_REVSEEDS 1\n");
 	return 0;
 }
 
@@ -1017,6 +1078,67 @@ static void build_targets(const std::string &family)
 			add_bin("pgp.PrivateKeyBlockParse", "emma-v5", strof(o), [run_prv](const std::string &in) { return run_prv(in, ""); });
 		}
 		add_bin("pgp.PublicKeyringParse", "two-keys", ringb, run_ring);
+#ifdef C12_HAVE_PGP_REVSEEDS
+		{
+			// ALL designated-revoker graphs over one, two and three keys: every key names no key or any key of the ring (itself
+			// included) as its designated revoker through a valid direct-key signature, and every subset of the named revokers
+			// has issued a key revocation signature: (n+1)^n graphs x 2^(keys with a revoker) rings.  Cycles (mutual revokers,
+			// three-cycles, self-designation) make the validity check of one key depend on the check of another (added after
+			// seeded change C12-5).  Consumer: run_ring (parse, list, check, reduce, look-ups).
+			const char *PUBS[3] = { REVSEED_PUB0, REVSEED_PUB1, REVSEED_PUB2 }, *UIDS[3] = { REVSEED_UID0, REVSEED_UID1, REVSEED_UID2 };
+			const char *DIRS[3][3] = { { REVSEED_DIR00, REVSEED_DIR01, REVSEED_DIR02 }, { REVSEED_DIR10, REVSEED_DIR11, REVSEED_DIR12 }, { REVSEED_DIR20, REVSEED_DIR21, REVSEED_DIR22 } };
+			const char *REVS[3][3] = { { REVSEED_REV00, REVSEED_REV01, REVSEED_REV02 }, { REVSEED_REV10, REVSEED_REV11, REVSEED_REV12 }, { REVSEED_REV20, REVSEED_REV21, REVSEED_REV22 } };
+			std::string pubs[3], uids[3], dirs[3][3], revs[3][3];
+			for (int x = 0; x < 3; x++)
+			{
+				pubs[x] = unhex(PUBS[x]), uids[x] = unhex(UIDS[x]);
+				for (int y = 0; y < 3; y++) dirs[x][y] = unhex(DIRS[x][y]), revs[x][y] = unhex(REVS[x][y]);
+			}
+			struct RG { std::string pubs[3], uids[3], dirs[3][3], revs[3][3]; };
+			std::shared_ptr<RG> G(new RG);
+			for (int x = 0; x < 3; x++)
+			{
+				G->pubs[x] = pubs[x], G->uids[x] = uids[x];
+				for (int y = 0; y < 3; y++) G->dirs[x][y] = dirs[x][y], G->revs[x][y] = revs[x][y];
+			}
+			PTarget T;
+			T.binary = true, T.own_custom = true;
+			T.t.name = "pgp.PublicKeyringParse", T.t.seedname = "revoker-graph", T.t.run = run_ring, T.t.expect_accept = true;
+			T.t.seed = pubs[0] + uids[0] + pubs[1] + uids[1] + pubs[2] + uids[2];
+			T.t.keyname = "openpgp", T.t.mode = Target::BINARY, T.t.cat.thorough = thorough;
+			T.t.custom = [G](const std::function<void(const Mutation &)> &f) {
+				for (int n = 1; n <= 3; n++)
+				{
+					int graphs = 1;
+					for (int i = 0; i < n; i++) graphs *= (n + 1);
+					for (int gi = 0; gi < graphs; gi++)
+					{
+						int d[3], v = gi, named = 0;
+						for (int i = 0; i < n; i++) { d[i] = v % (n + 1) - 1; v /= (n + 1); if (d[i] >= 0) named++; }
+						for (int rs = 0; rs < (1 << named); rs++)
+						{
+							std::string ring, id = "xG" + str(n) + ":";
+							int bit = 0;
+							for (int i = 0; i < n; i++)
+							{
+								bool rev = false;
+								if (d[i] >= 0) rev = (rs >> bit++) & 1;
+								ring += G->pubs[i];
+								if (rev) ring += G->revs[i][d[i]];
+								if (d[i] >= 0) ring += G->dirs[i][d[i]];
+								ring += G->uids[i];
+								id += (d[i] < 0 ? std::string("-") : str(d[i])) + (rev ? "r" : "");
+							}
+							Mutation m;
+							m.id = id, m.cls = "designated-revoker graph", m.ready = ring, m.have_ready = true;
+							f(m);
+						}
+					}
+				}
+			};
+			V.push_back(T);
+		}
+#endif
 		{
 			// a third key block whose PRIMARY key packet body equals the SUBKEY body of the first key (same fingerprint / key ID)
 			std::vector<Pkt> P = packets(pubblock);
@@ -1313,6 +1435,8 @@ int main(int argc, char **argv)
 	thorough = A.tier == "thorough";
 	if (!init_libTMCG()) { fprintf(stderr, "init_libTMCG failed\n"); return 2; }
 	mcenv::set_clock(1700000000);
+	if (A.has("gen-revseeds"))
+		return gen_revseeds();
 	if (A.has("gen-seeds"))
 		return gen_seeds();
 #ifndef C12_HAVE_PGP_SEEDS
